@@ -1,4 +1,4 @@
--- GENERATED on every run by harness/core/py2lean_flat.py from control/flatsys/flatsys.py (point_to_point 5ad3316c0e50a27d).  Do not edit.
+-- GENERATED on every run by harness/core/py2lean_flat.py from control/flatsys/flatsys.py (point_to_point 69031dc649d4ae4c).  Do not edit.
 import CtrlVerif.Model.PyFlat
 import CtrlVerif.Generated.FlatFlagMatrix
 
@@ -13,11 +13,11 @@ variable {K : Type} [Field K] [DecidableEq K]
 variable [LinearOrder K]
 
 /-- `control/flatsys/flatsys.py:point_to_point` as the source text says it (sha256 of the translated statements' text
-5ad3316c0e50a27d3f8cc18110959b69a15654fca6d9409c382e56a064ccbafa).
+69031dc649d4ae4c7c7d05c8444feb55b3edf83359a1a3674ad222a239b8a1cc).
 Defaults: none.
   note: the statements after `if basis is None: ...`, for a call with cost=None, trajectory_constraints=None
   note: `basis.nvars` is None (PolyFamily / BezierFamily objects)
-  note: `params = sys.params if params is None else params` is dropped (`params` is handed on to the functions of the system, which are parameters here)
+  note: `params = sys.params if params is None else {**sys.params, **params}` is dropped (`params` is handed on to the functions of the system, which are parameters here)
   note: `numpy.linalg.lstsq` is the parameter `lstsq` (solution and rank; `residuals`, `s` are not available)
   note: `if rank < Z.size: ... warnings.warn(...)` dropped: a warning does not change the result (its tests are assumed not to raise)
   note: `SystemTrajectory(sys, basis, params=params)`: nstates / ninputs of `sys`, the basis, `coeffs = []`, `flaglen = []` (what SystemTrajectory.__init__ stores for its defaults) -/
